@@ -129,6 +129,27 @@ def check_C15(tier):
             k3, again = call(sf.batch_selfies_to_flat_hot, batch, dict(vocab), padlen)
             if again != each:
                 rep.violation("mutating a returned encoding changes later results for %r" % (batch,), {"batch": batch})
+    # results are private copies: mutating a returned encoding must not change later results
+    vocab2 = {"[C]": 0, "[O]": 1, "[nop]": 2, ".": 3}
+    for s_, padlen in (("[C][O]", 4), ("", 2), ("[C].[O]", 0), ("[O][O][C]", 5)):
+        k1, first = call(sf.selfies_to_encoding, s_, dict(vocab2), pad_to_len=padlen, enc_type="both")
+        ref = ([list(first[0]), [list(r_) for r_ in first[1]]]) if k1 == "ok" else None
+        if k1 == "ok":
+            for r_ in first[1]:
+                for i in range(len(r_)):
+                    r_[i] = 0
+            for i in range(len(first[0])):
+                first[0][i] = 9
+        k2, second = call(sf.selfies_to_encoding, s_, dict(vocab2), pad_to_len=padlen, enc_type="both")
+        rep.traces += 1
+        if k1 != "ok" or k2 != "ok" or [list(second[0]), [list(r_) for r_ in second[1]]] != ref:
+            rep.violation("mutating the encoding returned for %r (pad %d) changes what the next call returns: %r" % (
+                s_, padlen, second), {"input": s_, "pad": padlen})
+        # rows of one result must not be one shared object either
+        if k2 == "ok" and len(second[1]) >= 2:
+            second[1][0][0] = 5
+            if any(r_[0] == 5 for r_ in second[1][1:]):
+                rep.violation("rows of a one-hot matrix share storage", {"input": s_})
     # larger vocabularies
     import gens
     for _ in range(100 if quick else 1000):
